@@ -4,14 +4,15 @@ import numpy as np
 
 DIMS = ['x', 'y', 'z', 'w', 't']
 STR_POOL = list('abcdefghijklmnopqrstuv')
+BIG = 20200000
 
 
-def labels(rng, n, kind, order='inc', lo=None):
+def labels(rng, n, kind, order='inc', lo=None, off=0):
     """n unique labels of kind 'i' (int), 'f' (halves), 's' (str) as a python list"""
     if kind == 'i':
-        base = sorted(rng.sample(range(-5, 30), n))
+        base = sorted(off + v for v in rng.sample(range(-5, 30), n))
     elif kind == 'f':
-        base = sorted(x / 2.0 for x in rng.sample(range(-10, 45), n))
+        base = sorted(off + x / 2.0 for x in rng.sample(range(-10, 45), n))
     else:
         base = sorted(rng.sample(STR_POOL, n))
     return reorder(rng, base, order)
@@ -103,7 +104,8 @@ def spec(rng, ndim=None, dims=None, sizes=None, kinds=None, orders=None, dtype='
         orders = [rng.choice(['inc', 'dec', 'shuf']) for _ in dims]
     elif isinstance(orders, str):
         orders = [orders] * n
-    labs = [labels(rng, s, k, o) for s, k, o in zip(sizes, kinds, orders)]
+    off = BIG if rng.random() < 0.12 else 0     # labels beyond 2**24: exact in 64-bit types only (dates written as integers)
+    labs = [labels(rng, s, k, o, off=off) for s, k, o in zip(sizes, kinds, orders)]
     return {"dims": dims, "labels": labs, "kinds": list(kinds),
             "values": values(rng, tuple(sizes), dtype, nan),
             # history: 30 % of the arrays have had their axes' ordering queried (as an earlier align / a + b would do),
